@@ -46,6 +46,11 @@ class C20(LineCheck):
     # way (a) of the tie for the record walk of iv_inotify_got_event: read size, ret tests, curr / end initialisation, loop test,
     # advance by len + sizeof(struct inotify_event), IN_IGNORED / IN_ONESHOT test, `this == NULL` are re-translated from the current
     # source on every run (gen/c2gallina.py -> Gen/LeafInotify.v); Misc/InotifyLink.v proves them equal to the model's list walk
+    def sibling_stages(self):
+        # the watch set is an iv_avl tree (anchor iv_avl.c): the C16 machinery
+        import c16
+        return [("C16", c16.C16)]
+
     def pre_proof(self, ctx):
         import leafgen
         return leafgen.regenerate(["LeafInotify.v"])
